@@ -243,7 +243,7 @@ func (l *Lexer) Next() (token.Token, error) {
 			tok = l.newToken(token.GT, string(l.ch))
 		}
 	case rune('~'):
-		return token.Token{}, fmt.Errorf("unexpected character: %q", l.ch)
+		return l.newToken(token.ILLEGAL, string(l.ch)), fmt.Errorf("unexpected character: %q", l.ch)
 	case rune('!'):
 		if l.peekChar() == rune('=') {
 			ch := l.ch
@@ -307,7 +307,7 @@ func (l *Lexer) Next() (token.Token, error) {
 		if isDigit(l.ch) {
 			tok, err = l.readDecimal()
 			if err != nil {
-				return token.Token{}, err
+				return tok, err
 			}
 			l.readChar()
 			l.prevToken = tok
@@ -315,7 +315,7 @@ func (l *Lexer) Next() (token.Token, error) {
 		}
 		ident, err := l.readIdentifier()
 		if err != nil {
-			return token.Token{}, err
+			return l.newToken(token.ILLEGAL, string(l.ch)), err
 		}
 		if ident == "as" && l.prevToken.Type == token.PERIOD {
 			tok = l.newToken(token.IDENT, ident)
@@ -465,14 +465,14 @@ func (l *Lexer) readDecimal() (token.Token, error) {
 	// Read an integer
 	numberType, integer, err := l.readNumber(false)
 	if err != nil {
-		return token.Token{}, err
+		return l.newToken(token.ILLEGAL, string(l.ch)), err
 	}
 	hasDot := l.peekChar() == rune('.')
 	if !hasDot {
 		return l.newToken(token.INT, integer), nil
 	}
 	if numberType != NumberTypeDecimal {
-		return token.Token{}, fmt.Errorf("invalid decimal literal: %s%s", integer, ".")
+		return l.newToken(token.ILLEGAL, string(l.ch)), fmt.Errorf("invalid decimal literal: %s%s", integer, ".")
 	}
 	// Read the "."
 	l.readChar()
@@ -480,15 +480,15 @@ func (l *Lexer) readDecimal() (token.Token, error) {
 		l.readChar()
 		numberType, fraction, err := l.readNumber(true)
 		if err != nil {
-			return token.Token{}, err
+			return l.newToken(token.ILLEGAL, string(l.ch)), err
 		}
 		if numberType != NumberTypeDecimal {
-			return token.Token{}, fmt.Errorf("invalid decimal literal: %s.%s", integer, fraction)
+			return l.newToken(token.ILLEGAL, string(l.ch)), fmt.Errorf("invalid decimal literal: %s.%s", integer, fraction)
 		}
 		return l.newToken(token.FLOAT, integer+"."+fraction), nil
 	}
 	// We reach this point with something like "42.foo"
-	return token.Token{}, fmt.Errorf("invalid decimal literal: %s.%c", integer, l.peekChar())
+	return l.newToken(token.ILLEGAL, string(l.ch)), fmt.Errorf("invalid decimal literal: %s.%c", integer, l.peekChar())
 }
 
 func (l *Lexer) readString(end rune) (string, error) {
